@@ -127,10 +127,78 @@ var classics = [][]string{
 	{"S", "S:AS", "S:b", "A:SA", "A:a"}, // dragon book exercise 4.6 style
 }
 
+// grammars whose symbol NAMES collide when rendered: a name containing spaces next to the names it is made of,
+// so that two different bodies of one head print identically ("type name list")
+type namedGrammar struct {
+	prods []string
+	names map[byte]string
+}
+
+var namedClassics = []namedGrammar{
+	// decl -> [type name][list] | [type][name list]
+	{[]string{"S:D", "D:PL", "D:TQ", "P:a", "L:b", "T:c", "Q:d"},
+		map[byte]string{'S': "start", 'D': "decl", 'P': "type name", 'L': "list", 'T': "type", 'Q': "name list"}},
+	{[]string{"S:xDy", "D:PLz", "D:TQz", "P:a", "L:b", "T:c", "Q:d"},
+		map[byte]string{'D': "decl", 'P': "type name", 'L': "list", 'T': "type", 'Q': "name list"}},
+	// three bodies with one rendering: [A B][C D] | [A][B C D] | [A B C][D]
+	{[]string{"S:PQ", "S:AR", "S:TD", "P:a", "Q:b", "A:c", "R:d", "T:e", "D:f"},
+		map[byte]string{'P': "A B", 'Q': "C D", 'A': "A", 'R': "B C D", 'T': "A B C", 'D': "D"}},
+	// the same rendering for bodies of different heads (harmless) and nullable members
+	{[]string{"S:UV", "U:PL", "V:TQ", "P:a", "P:", "L:b", "T:a", "Q:b", "Q:"},
+		map[byte]string{'P': "type name", 'L': "list", 'T': "type", 'Q': "name list"}},
+	// terminal names with spaces and quotes, non-terminal names that look like quoted terminals
+	{[]string{"S:aAb", "S:cB", "A:c", "B:ab"},
+		map[byte]string{'a': "a b", 'b': "b", 'c': "a", 'A': "\"a\"", 'B': "\"a\" \"b\""}},
+	// left-recursive list with colliding names
+	{[]string{"S:L", "L:LPQ", "L:LTR", "L:", "P:a", "Q:b", "T:c", "R:d"},
+		map[byte]string{'L': "list", 'P': "x y", 'Q': "z", 'T': "x", 'R': "y z"}},
+}
+
 func genClassic(w *tr.W, thorough bool) {
 	for _, c := range classics {
 		g := mk(c[0][0], c[1:]...)
 		runCase(w, g, stdOps(g, lenFor(g, thorough)))
+	}
+	for _, c := range namedClassics {
+		g := mk('S', c.prods...)
+		g.names = c.names
+		runCase(w, g, stdOps(g, lenFor(g, thorough)))
+	}
+	genHuge(w, thorough)
+}
+
+// hugeKernel: an LR(0) state with n (> 256) kernel items:  S -> A w | B d | C e ; A -> X t1 t2 t3 (n alternatives) ;
+// X -> x ; B -> y z ; C -> y z w.   The grammar is SLR(1).
+func hugeKernel(n int) *gspec {
+	letters := "abcfghi"
+	ps := []string{"S:Aw", "S:Bd", "S:Ce", "X:x", "B:yz", "C:yzw"}
+	count := 0
+	for i := 0; i < len(letters) && count < n; i++ {
+		for j := 0; j < len(letters) && count < n; j++ {
+			for k := 0; k < len(letters) && count < n; k++ {
+				ps = append(ps, "A:X"+string(letters[i])+string(letters[j])+string(letters[k]))
+				count++
+			}
+		}
+	}
+	g := mk('S', ps...)
+	g.nomodel = true
+	return g
+}
+
+func genHuge(w *tr.W, thorough bool) {
+	sizes := []int{272}
+	if thorough {
+		sizes = []int{257, 272, 300}
+	}
+	for _, n := range sizes {
+		g := hugeKernel(n)
+		ops := []string{"B slr", "B lalr"}
+		if thorough {
+			ops = append(ops, "B clr")
+		}
+		ops = append(ops, "W xaaaw", "W xiihw", "W xabcw", "W yzd", "W yzwe", "W yzw", "W yze", "W xaaad", "W xaaa", "W", "W yzwd", "W xw")
+		runCase(w, g, ops)
 	}
 }
 
@@ -232,6 +300,22 @@ func genRandom(w *tr.W, r *rng.R, thorough bool) {
 			continue
 		}
 		made++
+		if r.Chance(1, 5) {
+			// colliding names for the non-start non-terminals: words, and concatenations of those words with spaces
+			pool := []string{"A", "A B", "B", "B C", "C", "A B C", "C A", "B A"}
+			g.names = map[byte]string{}
+			off := r.Intn(len(pool))
+			k := 0
+			for i := 0; i < len(g.nts); i++ {
+				if g.nts[i] != g.start {
+					g.names[g.nts[i]] = pool[(off+k)%len(pool)]
+					k++
+				}
+			}
+			if r.Chance(1, 2) {
+				g.names[g.start] = "A B C D"
+			}
+		}
 		runCase(w, g, stdOps(g, lenFor(g, thorough)))
 	}
 }
